@@ -827,11 +827,32 @@ func (u *Unit) exec(p *Path, in ssa.Instruction) {
 	case *ssa.Slice:
 		u.execSlice(p, x)
 	case *ssa.MakeSlice:
-		u.fail("make([]T) is not modelled")
+		// make([]T, len, cap): a fresh backing array whose first len cells hold the zero value
+		st := x.Type().Underlying().(*types.Slice)
+		ln, cp := u.val(p, x.Len), u.val(p, x.Cap)
+		o := u.ob(u.siteName(x, "makeslice"), "safe", nil, "make([]T, len, cap) with 0 <= len <= cap")
+		ok := And(Ge(ln, IntLit(0)), Le(ln, cp))
+		u.check(p, o, ok)
+		p.assume(ok)
+		c := enc.cellsComp(enc.SortOf(st.Elem()))
+		r := u.freshRef(p, "make")
+		u.cx.n++
+		j := V(fmt.Sprintf("q_j_%d", u.cx.n), SInt)
+		cells := p.st.Get(u.cx, c.Name)
+		na := u.cx.Fresh("madearr", ArrSort(SInt, c.Elem))
+		if !(ln.IsLit() && ln.Lit == "0") {
+			p.assume(Forall([]*Term{j}, Imp(And(Ge(j, IntLit(0)), Lt(j, ln)), Eq(Select(na, j), enc.Zero(c.Elem))), []*Term{Select(na, j)}))
+		}
+		p.st.comps[c.Name] = Store(cells, r, na)
+		p.vals[x] = enc.Mk("mk_Slice", r, IntLit(0), ln, cp).WithT(x.Type())
 	case *ssa.Call:
 		u.execCall(p, x)
 	case *ssa.Index:
-		u.fail("index of array value")
+		if b, ok := x.X.Type().Underlying().(*types.Basic); ok && b.Info()&types.IsString != 0 {
+			u.stringIndex(p, x, x.X, x.Index)
+		} else {
+			u.fail("index of array value")
+		}
 	default:
 		u.fail("unsupported instruction %T at %s", in, u.v.enc.prog.Fset.Position(in.Pos()))
 	}
@@ -1006,7 +1027,8 @@ func (u *Unit) lookup(p *Path, x *ssa.Lookup) {
 	enc := u.v.enc
 	mt, ok := x.X.Type().Underlying().(*types.Map)
 	if !ok {
-		u.fail("string indexing is not modelled")
+		u.stringIndex(p, x, x.X, x.Index)
+		return
 	}
 	m := u.val(p, x.X)
 	k := u.val(p, x.Index)
@@ -1234,4 +1256,17 @@ func wrapInt(v *Term, signed bool, bits int) *Term {
 	}
 	half := pow(bits - 1)
 	return App("-", SInt, App("mod", SInt, App("+", SInt, v, half), pow(bits)), half)
+}
+
+// stringIndex models s[i] on a string: the code of the i-th character (strings are sequences of bytes
+// in this model), with the bounds check as an obligation.
+func (u *Unit) stringIndex(p *Path, x ssa.Value, sv, iv ssa.Value) {
+	str, idx := u.val(p, sv), u.val(p, iv)
+	o := u.ob(u.siteName(x.(ssa.Instruction), "index"), "safe", nil, "string index out of range")
+	inRange := And(Ge(idx, IntLit(0)), Lt(idx, App("str.len", SInt, str)))
+	u.check(p, o, inRange)
+	p.assume(inRange)
+	b := App("str.to_code", SInt, App("str.at", SStr, str, idx))
+	p.assume(And(Ge(b, IntLit(0)), Le(b, IntLit(255))))
+	p.vals[x] = b.WithT(x.Type())
 }
